@@ -311,6 +311,20 @@ def oracles_srv(line, real_out):
 REQ_CIDS = [(6, 8), (6, 0x3e), (1, 3), (0x0a, 4), (6, 0x8b), (0x10, 0x10)]
 
 
+def pick_req_cid(rng, pool=None):
+    """class/id of a request: the usual ones, or one that contains the protocol's special bytes, or any other - never an
+    answer class/id (ACK-ACK, ACK-NAK, MGA-ACK) and never 00/02, which the library reserves for its checksum-error marker (R13)"""
+    k = rng.random()
+    if k < 0.7:
+        return rng.choice(pool or REQ_CIDS)
+    if k < 0.9:
+        return rng.choice([(6, 0x62), (6, 0xb5), (0x62, 0xb5), (0xb5, 0x62), (0x24, 0x2a), (6, 0x24), (0x0a, 0x00), (0xff, 0xff), (1, 0x00)])
+    while True:
+        c = (rng.randrange(256), rng.randrange(256))
+        if c not in (ACK, NAK, MGA, (0, 2)) and c[0] != 0x13:
+            return c
+
+
 def rand_payload(rng, n):
     return bytes(rng.choice([0xb5, 0x62, 0, 0xff]) if rng.random() < .2 else rng.randrange(256) for _ in range(n))
 
@@ -381,7 +395,7 @@ def gen_srv(rng, n, profile):
     real_polls = sorted(poll_classes().items())
     for _ in range(n):
         kind = rng.choice(['set', 'set', 'mga', 'poll', 'poll', 'poll', 'faf'])
-        cls_, id_ = (0x13, 0x40) if kind == 'mga' else rng.choice(REQ_CIDS)
+        cls_, id_ = (0x13, 0x40) if kind == 'mga' else pick_req_cid(rng)
         payload = rand_payload(rng, rng.choice([0, 1, 6]))
         resp = str(rng.choice([0, 2, 6]))
         if kind == 'poll' and rng.random() < 0.35:
@@ -631,7 +645,7 @@ def benign(rng, awaited, others=()):
 
 def gen_c06(rng):
     kind = rng.choice(['set', 'set', 'mga', 'poll', 'poll', 'poll'])
-    cls_, id_ = (0x13, 0x40) if kind == 'mga' else rng.choice(REQ_CIDS)
+    cls_, id_ = (0x13, 0x40) if kind == 'mga' else pick_req_cid(rng)
     minlen = rng.choice([0, 2, 6])
     retries = rng.randrange(0, 4)
     K = rng.randrange(1, retries + 2)
@@ -725,7 +739,7 @@ def gen_sequence(rng):
     earlier = []
     for _ in range(nreq):
         kind = rng.choice(['set', 'set', 'mga', 'poll', 'poll', 'faf'])
-        cls_, id_ = (0x13, 0x40) if kind == 'mga' else rng.choice(REQ_CIDS[:4])
+        cls_, id_ = (0x13, 0x40) if kind == 'mga' else pick_req_cid(rng, REQ_CIDS[:4])
         if prev and rng.random() < 0.3 and kind != 'mga':
             cls_, id_ = prev                         # the same class/id again, as another kind of request
         prev = (cls_, id_) if kind != 'mga' else prev
